@@ -313,8 +313,11 @@ def kstep_sx(st):
             return '(%s %s)' % (b[0], inner)
         return '10 ' + ' '.join('(%s)' % ' '.join(bq(b) for b in conj) for conj in st[1])
     if st[0] == 12:
-        # a comparison filter with blanks around its operator: (12, [inner steps], blanks before, operator, blanks after, literal code points)
-        return '12 (%s) %d %d %d %s' % (' '.join('(%s)' % kstep_sx(x) for x in st[1]), st[2], st[3], st[4], ' '.join(str(x) for x in st[5]))
+        # a comparison filter with blanks: (12, [inner steps], blanks after `?(`, before the operator, operator, after it, before `)`, literal code points)
+        return '12 (%s) %d %d %d %d %d %s' % (' '.join('(%s)' % kstep_sx(x) for x in st[1]), st[2], st[3], st[4], st[5], st[6], ' '.join(str(x) for x in st[7]))
+    if st[0] == 13:
+        # an existence filter (negated: 1) with blanks: (13, neg, blanks after `?(`, after `!`, before `)`, [inner steps])
+        return '13 %d %d %d %d %s' % (1 if st[1] else 0, st[2], st[3], st[4], ' '.join('(%s)' % kstep_sx(x) for x in st[5]))
     if st[0] == 8:
         # a comparison filter [?(@ inner OP number)]: (8, [inner steps], operator code 0..5, literal code points)
         return '8 (%s) %d %s' % (' '.join('(%s)' % kstep_sx(x) for x in st[1]), st[2], ' '.join(str(x) for x in st[3]))
